@@ -30,6 +30,8 @@ def plan(tier, seed):
     cases += [{'family': 'convergent', 'cseed': rnd.randrange(1 << 30)} for _ in range(16 if tier == 'quick' else 300)]
     # circuits whose edges run through EdgeTemplates (incl. two-input edge operators): every swept circuit has its own edge instances
     cases += [{'family': 'edge_templates', 'cseed': rnd.randrange(1 << 30)} for _ in range(16 if tier == 'quick' else 300)]
+    # identical units wired one-to-one by a permutation (rings in scrambled order), 3-8 rows
+    cases += [{'family': 'permutation_ring', 'cseed': rnd.randrange(1 << 30)} for _ in range(12 if tier == 'quick' else 250)]
     # a grid with a single row (sweeps are also used to run one parametrization): labelled like any other
     fam = 'probe:single_row_grid' if 'single_row_grid' in open_risks(PID) else 'main'
     cases += [{'family': fam, 'cseed': rnd.randrange(1 << 30), 'want': 'single_row_grid'} for _ in range(6 if tier == 'quick' else 60)]
@@ -49,7 +51,14 @@ def run_case(case, ctx):
     # convergent circuits: in a sweep every circuit is one element of the merged groups, so "several sources into the single
     # element of a target group" (the C04 finding for a circuit compiled on its own) becomes an ordinary many-to-one bundle
     convergent = case.get('family') == 'convergent'
+    ring = case.get('family') == 'permutation_ring'
     for attempt in range(100):
+        if ring:
+            # identical units wired one-to-one by a permutation: in the sweep the merged edge group is sparse and index-based
+            base = gen.gen_ring_net(rnd)
+            feats, risk = gen.features(base)
+            ref0 = RefModel(base)
+            break
         base, feats, risk = c04.make_spec({'cseed': rnd.randrange(1 << 30), 'want': 'vec_single_target_multi_source' if convergent else None,
                                            'family': 'edge_templates' if case.get('family') == 'edge_templates' else 'main',
                                            'edge_shapes': ['two_in', 'two_in', 'lin', 'tanh']},
@@ -57,7 +66,7 @@ def run_case(case, ctx):
         ref0 = RefModel(base)
         if max(n.count('/') for n in ref0.node_order) <= 1 and ref0.state_keys:
             break
-    vec = rnd.random() < 0.5 or convergent or case.get('family') == 'edge_templates'
+    vec = rnd.random() < 0.5 or convergent or case.get('family') == 'edge_templates' or ring
     if vec:
         for o in base['ops'].values():
             for v, d in o['vars'].items():
@@ -71,6 +80,8 @@ def run_case(case, ctx):
     # mostly small grids; sometimes 8-12 rows, so that the merged (vectorized) sweep crosses the size thresholds of the
     # index-based / matrix edge forms (edges per circuit x rows >= 10)
     n_rows = rnd.randint(2, 5) if rnd.random() < 0.7 and not convergent else rnd.randint(6, 12)
+    if ring:
+        n_rows = rnd.randint(3, 8)
     if case.get('want') == 'single_row_grid':
         n_rows = 1
         res['risk'] = ['single_row_grid']
